@@ -30,6 +30,25 @@ pub fn span_str(tcx: TyCtxt<'_>, sp: Span) -> String {
     format!("{}:{}:{}", name, lo.line, lo.col.0 + 1)
 }
 
+/// position of the code a user wrote: expansions of foreign macros (write!, format_args!) are walked up,
+/// the body of a macro defined in this crate is not (its call sites would all collapse to the invocation)
+pub fn user_span_str(tcx: TyCtxt<'_>, sp: Span) -> String {
+    let sm = tcx.sess.source_map();
+    let mut sp = sp;
+    let mut n = 0;
+    while sp.from_expansion() && n < 32 {
+        let d = sp.ctxt().outer_expn_data();
+        if d.macro_def_id.map_or(false, |m| m.is_local()) {
+            break;
+        }
+        sp = d.call_site;
+        n += 1;
+    }
+    let lo = sm.lookup_char_pos(sp.lo());
+    let name = format!("{}", lo.file.name.prefer_local_unconditionally());
+    format!("{}:{}:{}", name, lo.line, lo.col.0 + 1)
+}
+
 fn raw_span_str(tcx: TyCtxt<'_>, sp: Span) -> String {
     let sm = tcx.sess.source_map();
     let lo = sm.lookup_char_pos(sp.lo());
@@ -492,6 +511,9 @@ impl<'tcx> Cx<'tcx> {
             let bbi = |b: BasicBlock| J::Int(b.as_usize() as i128);
             let mut t = J::obj();
             t.put("sp", J::s(span_str(tcx, term.source_info.span)));
+            if matches!(term.kind, mir::TerminatorKind::Call { .. }) && term.source_info.span.from_expansion() {
+                t.put("usp", J::s(user_span_str(tcx, term.source_info.span)));
+            }
             t.put("exp", J::Bool(term.source_info.span.from_expansion()));
             match &term.kind {
                 TerminatorKind::Goto { target } => {
@@ -704,6 +726,15 @@ pub fn collect<'tcx>(tcx: TyCtxt<'tcx>) -> J {
                     o.put("output", J::s(tystr(sig.output())));
                     let gens = tcx.generics_of(did);
                     o.put("generic_count", J::Int(gens.count() as i128));
+                    // names of the type / const parameters (parents first), in the order of a resolved callee's `args`
+                    let mut gn = Vec::new();
+                    for i in 0..gens.count() {
+                        let p = gens.param_at(i, tcx);
+                        if !matches!(p.kind, ty::GenericParamDefKind::Lifetime) {
+                            gn.push(J::s(p.name.to_string()));
+                        }
+                    }
+                    o.put("generics", J::Arr(gn));
                     o.put("is_const_fn", J::Bool(tcx.is_const_fn(did)));
                 } else {
                     o.put("parent_key", J::s(defkey(tcx, tcx.parent(did))));
